@@ -27,8 +27,8 @@ CLAIMS = {
  "C11": ("Lean theorems: DES / AES encrypt produce Spec.cbcEncrypt / Spec.cfbEncrypt (textbook CBC, CFB-128) of the scoped PDU's independent encoding plus < 1 block of zero padding, with key / pre-IV / IV as RFC 3414 8.1.1.1 and RFC 3826 3.1.2.1 prescribe, independent of the private buffer's earlier contents; decrypt inverts encrypt for any invertible block function and the scoped PDU parser recovers the exact content despite padding. E2E: every encrypted request decrypted with OpenSSL and compared octet for octet; agent-encrypted replies delivered exactly.",
          TB + "the DES / AES block functions are parameters (Ciphers.WF: block size, invertibility for the inverse theorem).",
          "Lean 4 proof (refinement to textbook mode specifications, inverse theorem) + e2e oracle + correspondence", "§7 C11"),
- "C12": ("Lean theorems: password_to_master hashes exactly the first 2^20 octets of the endlessly repeated password (Spec.passwordToKey, for every non-empty password incl. lengths not dividing 2^20), localisation is H(Ku || engineID || Ku), as_key_type dispatches on the two high bits for every code < 64 x 4 and refuses unknown codes, empty passwords and wrong-size localized keys with InvalidKey / InvalidVersion and never panics; the privacy key is localized with the auth digest. Streams against hashlib (itself validated against the RFC's loop), Python API, user.py, sessions per key type, constructor on malformed material.",
-         TB + "MD5 / SHA-1 are parameters; a wrong-size MASTER key is hashed as given by the Rust layer (user.py pads it) — documented deviation, DESIGN.md §9.",
+ "C12": ("Lean theorems: password_to_master hashes exactly the first 2^20 octets of the endlessly repeated password (Spec.passwordToKey, for every non-empty password incl. lengths not dividing 2^20), localisation is H(Ku || engineID || Ku), as_key_type dispatches on the two high bits for every code < 64 x 4 and refuses unknown codes, empty passwords and wrong-size localized keys with InvalidKey / InvalidVersion and never panics; the privacy key is localized with the auth digest; the Python key classes (user.py, modelled in Model/User.lean) hand the socket master / localized keys of exactly the digest size and codes that carry digest and key type (user_keys_sized, user_codes). Streams against hashlib (itself validated against the RFC's loop), Python API, user.py, sessions per key type, constructor on malformed material.",
+         TB + "MD5 / SHA-1 are parameters; a wrong-size MASTER key is hashed as given by the Rust layer; the public Python API never passes one (user_keys_sized) — DESIGN.md §11.2.",
          "Lean 4 proof (refinement to the RFC 3414 A.2 specification, totality) + differential correspondence + e2e oracle", "§7 C12"),
  "C13": ("Lean theorems about unwrap_pdu and set_keys for every session state and incoming message: an empty engine id is replaced by the one of the first accepted message and never changes afterwards; boots and time are those of the most recent accepted message and untouched by skipped ones; every request is stamped with the stored engine id (USM and context), boots, time and user; set_keys localizes to the stored engine id; probe = empty reportable GET. E2E: the real sync and async SnmpSession with and without engine id against an agent whose clock moves between replies.",
          TB + "the Python refresh() sequencing is exercised, not modelled.",
